@@ -14,6 +14,8 @@ pub struct LineServer {
     rx: Option<Receiver<Option<String>>>,
     pub restarts: u64,
     pub hangs: u64,
+    /// requests that answered only when asked again with a longer timeout
+    pub slow: u64,
     pub deaths: u64,
 }
 
@@ -28,7 +30,7 @@ pub enum Reply {
 
 impl LineServer {
     pub fn new(name: &str, cmd: Vec<String>, envs: Vec<(String, String)>) -> Self {
-        LineServer { name: name.into(), cmd, envs, child: None, stdin: None, rx: None, restarts: 0, hangs: 0, deaths: 0 }
+        LineServer { name: name.into(), cmd, envs, child: None, stdin: None, rx: None, restarts: 0, hangs: 0, slow: 0, deaths: 0 }
     }
 
     fn start(&mut self) {
@@ -128,7 +130,7 @@ impl LineServer {
             // circuit breaker: a tree on which (nearly) every case hangs or kills the worker would
             // otherwise take cases x timeout; what has been seen by then is reported, the rest of
             // the batch is left unevaluated (the caller records how many)
-            if self.hangs as u64 * timeout.as_secs().max(1) >= 600 || self.deaths >= 3000 {
+            if self.hangs as u64 * timeout.as_secs().max(1) * 11 >= 600 || self.deaths >= 3000 {
                 break;
             }
             if self.child.is_none() {
@@ -151,6 +153,7 @@ impl LineServer {
                 Some(w)
             });
             let mut failed = false;
+            let mut retry: Option<String> = None;
             while out.len() < lines.len() {
                 match self.rx.as_ref().unwrap().recv_timeout(timeout) {
                     Ok(Some(l)) => out.push(Reply::Line(l)),
@@ -165,8 +168,7 @@ impl LineServer {
                     Err(RecvTimeoutError::Timeout) => {
                         self.kill();
                         self.restarts += 1;
-                        self.hangs += 1;
-                        out.push(Reply::Hang);
+                        retry = Some(lines[out.len()].clone());
                         failed = true;
                         break;
                     }
@@ -175,6 +177,25 @@ impl LineServer {
             let w = writer.join().ok().flatten();
             if !failed {
                 self.stdin = w;
+            }
+            // a reply that did not arrive in time is a hang only if the request, asked again on its own
+            // in a fresh process with ten times the time, still does not answer: a loaded machine (or a
+            // slow external oracle) must not be reported as a hang of the implementation
+            if let Some(line) = retry.take() {
+                match self.ask(&line, timeout * 10) {
+                    Reply::Line(l) => {
+                        self.slow += 1;
+                        out.push(Reply::Line(l));
+                    }
+                    Reply::Hang => {
+                        self.hangs += 1;
+                        out.push(Reply::Hang);
+                    }
+                    Reply::Died(st) => {
+                        self.deaths += 1;
+                        out.push(Reply::Died(st));
+                    }
+                }
             }
         }
         out
